@@ -48,8 +48,7 @@ V8_BASE = ["V8_lower.fn:lemma_*", "V8_lower.fn:FunctionModifier as *", "V8_lower
            "V8_lower.fn:InstrumentationFlag::*", "V8_lower.fn:Instruction::add_instr", "V8_lower.fn:FuncInstrFlag::add_instr", "V8_lower.fn:v_inject_all",
            # which functions the lowering visits at all (rule R23, unit V2)
            "V2_reindex.functions_visited_by_the_lowering.*", "V2_reindex.fn:Module::functions_visited_by_the_lowering"]
-LOWER_GLUE = ["Module::resolve_special_instrumentation: the per-function driver (block stack, which helper runs at which instruction, delete_block / retain_end bookkeeping, resolve_on_end maps) is not under contract, EXCEPT (i) the preparation of entry / exit code before the loop and (ii) WHICH functions the outer loop visits (rule R23, unit V2: every local function of the re-organised container; F30), (iii) ONE ITERATION of the inner loop (rule R19) for twelve cases, each a contract on the same extracted text restricted by its `requires`: inside a removed construct; the opener carrying a block-alternate; the matching `end` of a removed construct; an opener with only a block-entry probe; a block / loop with only a block-exit probe; a single-target branch with only a semantic-after probe; a br_table with only a semantic-after probe (flag created, due at the end of every target and of the default, request consumed); an `end` outside any removed construct with bodies pending in either or both tables (the two flush loops are replaced there by calls of the flush regions, verified on their own against the same text: both tables are flushed at this `end` and their entries taken off) - with function-level entry / exit code possibly pending: at the function's last instruction the wrapper block is closed and the exit code follows, spent there; an `else` outside any removed construct with bodies pending for 'the else or the end' of its `if` (flushed here, taken off, the other table untouched; `remove_for_top`, which stands for the closure expression that removes the entry, is ASSUMED to be HashMap::remove for the innermost open construct); an `else` that carries a block-alternate (pending bodies of its `if` are still flushed here, then the else-arm is replaced and removed up to the `end`, which stays); a block / loop / if with ANY combination of block-entry, block-exit and semantic-after requests (each placed resp. registered as if it were alone, all consumed); an ordinary (not block-structured) instruction without special request, with function-level code possibly pending: entry code once in front of instruction 0, a copy of the exit code in front of every instruction that leaves the function (the four opener / branch cases are stated for functions without function-level entry / exit code). All other combinations (several special requests on a branch, special requests on `else` / `end` other than a block-alternate on `else`, function-level code together with a special request) are NOT decided; the plan tables are seen through two unrelated views (an uninterpreted one where entries are added by the assumed save_* helpers, the std HashMap view where they are removed and flushed): that what was planned is what is flushed is read, not proved",
-              "the save_* helpers use HashMap::entry().and_modify(closure): outside Verus (assumed where a contract of C19 / C20 needs them)",
+LOWER_GLUE = ["Module::resolve_special_instrumentation: the per-function driver (block stack, which helper runs at which instruction, delete_block / retain_end bookkeeping, resolve_on_end maps) is not under contract, EXCEPT (i) the preparation of entry / exit code before the loop and (ii) WHICH functions the outer loop visits (rule R23, unit V2: every local function of the re-organised container; F30), (iii) ONE ITERATION of the inner loop (rule R19) for twelve cases, each a contract on the same extracted text restricted by its `requires`: inside a removed construct; the opener carrying a block-alternate; the matching `end` of a removed construct; an opener with only a block-entry probe; a block / loop with only a block-exit probe; a single-target branch with only a semantic-after probe; a br_table with only a semantic-after probe (flag created, due at the end of every target and of the default, request consumed); an `end` outside any removed construct with bodies pending in either or both tables (the two flush loops are replaced there by calls of the flush regions, verified on their own against the same text: both tables are flushed at this `end` and their entries taken off) - with function-level entry / exit code possibly pending: at the function's last instruction the wrapper block is closed and the exit code follows, spent there; an `else` outside any removed construct with bodies pending for 'the else or the end' of its `if` (flushed here, taken off, the other table untouched; `remove_for_top`, which stands for the closure expression that removes the entry, is ASSUMED to be HashMap::remove for the innermost open construct); an `else` that carries a block-alternate (pending bodies of its `if` are still flushed here, then the else-arm is replaced and removed up to the `end`, which stays); a block / loop / if with ANY combination of block-entry, block-exit and semantic-after requests (each placed resp. registered as if it were alone, all consumed); an ordinary (not block-structured) instruction without special request, with function-level code possibly pending: entry code once in front of instruction 0, a copy of the exit code in front of every instruction that leaves the function (the four opener / branch cases are stated for functions without function-level entry / exit code). All other combinations (several special requests on a branch, special requests on `else` / `end` other than a block-alternate on `else`, function-level code together with a special request) are NOT decided; the plan tables are seen through the std HashMap view both where entries are added (save_* helpers, proved) and where they are removed and flushed; the lemmas `registered_is_flushed.*` connect the two (the code emitted for an entry is a function of its plan view; a registered body is emitted after what was already due under the same construct and mode, every other entry keeps its code), but the composition over a whole function body (registration at the opener, flush at the matching end, many iterations apart) is not stated as one theorem",
               "the final emission of before / alternate / after lists in encode_internal",
               "'fires once when ...' is an execution-trace property: neither verifier has a WebAssembly semantics; what is proved is WHERE each helper places WHICH code (placement contracts written from the property text)",
               "TRUSTED: Inject::inject_all injects the slice in order (closure capturing &mut self)"]
@@ -327,8 +326,11 @@ PROPS = {
     "C19": {
         "title": "Block exit probes fire when the block or arm falls through",
         "units": ["V8_lower", "V2_reindex"],
-        "obligations": V8_BASE + ["V8_lower.flush_*", "V8_lower.fn:Module::flush_*", "V8_lower.lower_block_exit_opener.*", "V8_lower.fn:Module::lower_block_exit_opener", "V8_lower.lower_opener_with_several_requests.*", "V8_lower.fn:Module::lower_opener_with_several_requests", "V8_lower.lower_end_with_pending_bodies.*", "V8_lower.fn:Module::lower_end_with_pending_bodies", "V8_lower.lower_else_with_pending_bodies.*", "V8_lower.fn:Module::lower_else_with_pending_bodies", "V8_lower.lower_else_block_alt.*", "V8_lower.fn:Module::lower_else_block_alt", "V8_lower.resolve_bodies.*", "V8_lower.fn:resolve_bodies", "V8_lower.plan_resolution_block_exit.*", "V8_lower.fn:plan_resolution_block_exit"],
-        "glue": LOWER_GLUE + ["ASSUMED: the contracts of save_not_flagged_body_to_resolve{,_inner} (HashMap entry().and_modify(closure).or_insert() chains): they add the body, unflagged, under (block, mode) and touch nothing else"],
+        "obligations": V8_BASE + ["V8_lower.flush_*", "V8_lower.fn:Module::flush_*", "V8_lower.lower_block_exit_opener.*", "V8_lower.fn:Module::lower_block_exit_opener", "V8_lower.lower_opener_with_several_requests.*", "V8_lower.fn:Module::lower_opener_with_several_requests", "V8_lower.lower_end_with_pending_bodies.*", "V8_lower.fn:Module::lower_end_with_pending_bodies", "V8_lower.lower_else_with_pending_bodies.*", "V8_lower.fn:Module::lower_else_with_pending_bodies", "V8_lower.lower_else_block_alt.*", "V8_lower.fn:Module::lower_else_block_alt", "V8_lower.resolve_bodies.*", "V8_lower.fn:resolve_bodies", "V8_lower.plan_resolution_block_exit.*", "V8_lower.fn:plan_resolution_block_exit",
+                                  "V8_lower.fn:save_not_flagged_body_to_resolve", "V8_lower.fn:save_not_flagged_body_to_resolve_inner",
+                                  "V8_lower.registered_is_flushed.emitted_code_is_determined_by_the_plan_view", "V8_lower.registered_is_flushed.unflagged_*",
+                                  "V8_lower.fn:lemma_resolved_code_is_a_function_of_the_plan_view", "V8_lower.fn:lemma_unflagged_body_registered_is_flushed", "V8_lower.fn:lemma_other_entries_keep_their_code"],
+        "glue": LOWER_GLUE + ["ASSUMED: Vec<Operator>::to_owned yields an equal list; HashMap::from([(k, v)]) is the one-entry table; #[derive(Hash, Eq)] of InstrumentationMode obeys the HashMap key model (the save_not_flagged_body_to_resolve{,_inner} helpers themselves are proved with their real bodies, rule R27)"],
         "design_ref": "DESIGN.md §5 C17-C20",
         "level_text": "Placement only. Registration: the probe of an `if` is due at its else-or-end, that of a block / loop / else before the `end` of that very construct (innermost open one), unflagged, nothing for other instructions. Emission: the code saved for a construct's `else`/`end` is emitted into the requested list of that instruction as (flag-guarded chain; unconditional bodies), nothing else changes, whatever the iteration order of the table. Driver (one iteration): the opener registers, the `else` flushes what is saved for the else-or-end of its `if` (also when the else carries a block-alternate), the `end` flushes both tables and takes the entries off.",
     },
@@ -336,8 +338,11 @@ PROPS = {
         "title": "Semantic-after probes fire exactly once after the instruction",
         "units": ["V8_lower", "V2_reindex"],
         "obligations": V8_BASE + ["V8_lower.flush_*", "V8_lower.fn:Module::flush_*", "V8_lower.lower_semantic_after_branch.*", "V8_lower.fn:Module::lower_semantic_after_branch", "V8_lower.lower_semantic_after_br_table.*", "V8_lower.fn:Module::lower_semantic_after_br_table", "V8_lower.lower_opener_with_several_requests.*", "V8_lower.fn:Module::lower_opener_with_several_requests", "V8_lower.lower_end_with_pending_bodies.*", "V8_lower.fn:Module::lower_end_with_pending_bodies", "V8_lower.create_bool_flag.*", "V8_lower.fn:create_bool_flag", "V8_lower.fn:add_local", "V8_lower.resolve_bodies.*", "V8_lower.fn:resolve_bodies", "V8_lower.plan_resolution_semantic_after.*", "V8_lower.fn:plan_resolution_semantic_after",
-                                   "V8_lower.kf.resolve_bodies.*", "V8_lower.lemma.emitted_chain_is_well_nested_up_to_two_flagged_bodies", "V8_lower.fn:lemma_chain_agrees_up_to_two"],
-        "glue": LOWER_GLUE + ["ASSUMED: the contracts of save_{not_,}flagged_body_to_resolve (HashMap entry chains) and of the br_table target loop (a for_each closure, named brtable_save_targets by rule R11): they add the body under (block, mode), flagged with the given local or unflagged, and touch nothing else",
+                                   "V8_lower.kf.resolve_bodies.*", "V8_lower.lemma.emitted_chain_is_well_nested_up_to_two_flagged_bodies", "V8_lower.fn:lemma_chain_agrees_up_to_two",
+                                   "V8_lower.fn:save_not_flagged_body_to_resolve", "V8_lower.fn:save_not_flagged_body_to_resolve_inner", "V8_lower.fn:save_flagged_body_to_resolve",
+                                   "V8_lower.registered_is_flushed.*", "V8_lower.fn:lemma_resolved_code_is_a_function_of_the_plan_view", "V8_lower.fn:lemma_unflagged_body_registered_is_flushed",
+                                   "V8_lower.fn:lemma_flagged_body_registered_is_flushed", "V8_lower.fn:lemma_other_entries_keep_their_code"],
+        "glue": LOWER_GLUE + ["ASSUMED: the contract of the br_table target loop (a for_each closure, named brtable_save_targets by rule R11): it registers the body, flagged with the given local, under (block of each decoded target, mode) and touches nothing else; Vec<Operator>::to_owned yields an equal list; HashMap::from([(k, v)]) is the one-entry table; #[derive(Hash, Eq)] of InstrumentationMode obeys the HashMap key model (the save_{not_,}flagged_body_to_resolve helpers themselves are proved with their real bodies, rule R27)",
                               "TRUSTED model of wasmparser::BrTable: targets() yields br_targets(t), default() is br_default(t)"],
         "design_ref": "DESIGN.md §5 C17-C20",
         "level_text": "Placement only. Registration: on block / loop / if / else the probe is due after the `end` of that very construct; on EVERY br / br_if / br_on_* (whatever its target, incl. the function body) a fresh i32 flag is set to 1 before the branch and reset to 0 after it, with the probe body right after the reset for conditional branches (fall-through), and the probe is due, guarded by that flag, at the `end` of block (top - depth); br_table: the same for every target and the default; nothing for other instructions. Emission: at the target's end each saved body is guarded by its flag in an if / else-if chain. The driver that pairs the two is glue.",
@@ -437,8 +442,10 @@ PROPS = {
                         "V11_emit.encode_function_section.one_record_per_live_tagged_local_function", "V11_emit.encode_function_section.no_other_records", "V11_emit.fn:Module::encode_function_section",
                         "V11_emit.fn:LocalFunction as TagUtils::get_tag", "V11_emit.locals_as_vec.*", "V11_emit.fn:Body::locals_as_vec",
                         # the stored types (and with them their tags) are not touched by later additions: a type gets a record iff it was added with a tag
-                        "V7_types.add_type.existing_types_unchanged", "V7_types.add_type.new_type_gets_next_id_and_own_group", "V7_types.fn:ModuleTypes::add_type"],
-        "glue": ["ASSUMED: add_injection (a HashMap entry().and_modify(closure).or_insert() chain) appends the record to the list of its kind and touches nothing else; #[derive(Clone)] of Tag, Types and InitExpr, String::clone, <[u8]>::to_vec and Tag::to_owned yield equal values; DataType::from(ValType) is an uninterpreted dt_of (its exactness: Kani K1); str::to_string is modelled by an uninterpreted str_owned",
+                        "V7_types.add_type.existing_types_unchanged", "V7_types.add_type.new_type_gets_next_id_and_own_group", "V7_types.fn:ModuleTypes::add_type",
+                        # the collection step itself (rule R27): the record is appended to the list of its kind, every other list is as it was
+                        "V12_sections.add_injection.*", "V12_sections.fn:add_injection", "V11_emit.add_injection.*", "V11_emit.fn:add_injection"],
+        "glue": ["ASSUMED: #[derive(Hash, Eq)] of InjectType obeys the HashMap key model; #[derive(Clone)] of Injection, Tag, Types and InitExpr, String::clone, <[u8]>::to_vec and Tag::to_owned yield equal values; DataType::from(ValType) is an uninterpreted dt_of (its exactness: Kani K1); str::to_string is modelled by an uninterpreted str_owned",
                  "the Type, Import, Export, Memory, Table, Element, Global, Data and Func records are decided (the last three through a view, because they hold Vecs: id / type / tag / initialiser resp. memory / offset / bytes / tag, with the indices inside in the index space of the encoded module). Func records are made when the function section is written, i.e. with the body as stored BEFORE the code section rewrites it (the caller's index space); Local records are never produced by the library; records for probes (add_injections / add_opcode_injections / add_corrected_special_injections: closure-based, over HashMaps) are NOT under contract; that probe bodies use the encoded index space follows only from V11 (every injected operator is remapped in place before the records are built) and is not stated as a clause",
                  "that items of the parsed module carry no tag (so get no record) is a property of parse_internal (it builds every item with tag None): read, not proved"],
         "design_ref": "DESIGN.md §5 C23",
